@@ -565,9 +565,9 @@ var Rules = []report.Rule{
 	{ID: "S2", Floor: 1, Props: []string{"C12", "C01"}, Text: "the worker writes no ScheduledJob field"},
 	{ID: "S3", Floor: 3, Props: []string{"C12", "C07"}, Text: "Scheduler.err is written only by the loop and read only by the loop or by Wait after the finish-channel receive"},
 	{ID: "S4", Floor: 2, Props: []string{"C12"}, Text: "ScheduledJob has no methods and no exported/embedded fields"},
-	{ID: "S5", Floor: 2, Props: []string{"C01"}, Text: "every insertion into the ready list is dominated by `job.remaining == 0` with no write to remaining in between"},
+	{ID: "S5", Floor: 2, Props: []string{"C01", "C02"}, Text: "every insertion into the ready list is dominated by `job.remaining == 0` with no write to remaining in between"},
 	{ID: "S6", Floor: 8, Props: []string{"C01", "C03"}, Text: "the only send of a job to workers sends ready.Front(), is enabled only when one was chosen this iteration, and its arm removes exactly that element; all channel sends of the package are classified"},
-	{ID: "S7", Floor: 4, Props: []string{"C01", "C05"}, Text: "remaining is written only as +1 (paired with registration in a not-done dependency's consumer list) and -1 (once per consumer of a finished job, unconditionally)"},
+	{ID: "S7", Floor: 4, Props: []string{"C01", "C05", "C02"}, Text: "remaining is written only as +1 (paired with registration in a not-done dependency's consumer list) and -1 (once per consumer of a finished job, unconditionally)"},
 	{ID: "S8", Floor: 3, Props: []string{"C01", "C08", "C05"}, Text: "the result arm marks the finished job done before branching"},
 	{ID: "S9", Floor: 7, Props: []string{"C03", "C06"}, Text: "the go statements of packages scheduler and cff are exactly: spawner, loop, N workers in a counted loop, one replacement per dying worker; none is reachable from Enqueue, the loop or Wait"},
 	{ID: "S10", Floor: 3, Props: []string{"C03", "C05", "C06"}, Text: "ready channel is unbuffered; result channel capacity is the defaulted Concurrency, the same value that bounds the worker-spawn loop and is reported"},
